@@ -361,14 +361,24 @@ func c19Centres(r *engine.Run) {
 			for lon := -180; lon <= 180; lon++ {
 				for lat := -89; lat <= 89; lat++ {
 					c := projCfg{Name: name, R: R, Center: []float64{float64(lon), float64(lat)}}
-					c19Point(r, c, c.build(), float64(lon), float64(lat), false)
+					p := c.build()
+					c19Point(r, c, p, float64(lon), float64(lat), false)
 					n++
+					// and very close to the centre without being it (1e-8°..1e-2° away in 4 directions,
+					// on every 7th centre): a centre special case must not swallow its neighbourhood
+					if (lon+lat)%7 == 0 && lat > -80 && lat < 80 {
+						for _, d := range []float64{1e-8, 1e-6, 1e-4, 1e-2} {
+							for _, dir := range [][2]float64{{1, 0}, {0, 1}, {-1, 0}, {0.6, -0.8}} {
+								c19Point(r, c, p, float64(lon)+d*dir[0], float64(lat)+d*dir[1], false)
+							}
+						}
+					}
 				}
 			}
 		}
 	}
 	r.States.Add(int64(n))
-	r.Bound(fmt.Sprintf("azimuthal projections at their own centre for every integer centre (lon -180..180, lat -89..89) × 2 radii: %d configurations", n))
+	r.Bound(fmt.Sprintf("azimuthal projections at their own centre for every integer centre (lon -180..180, lat -89..89) × 2 radii: %d configurations; every 7th also at 1e-8°..1e-2° from the centre in 4 directions", n))
 }
 
 func c19Replay(r *engine.Run, sub string, raw json.RawMessage) error {
